@@ -9,7 +9,7 @@ rc=0
 for d in harness/cmd/*/; do
   id=$(basename "$d")
   if [ -x "$d/build.sh" ]; then
-    (cd harness && "cmd/$id/build.sh" "$PWD/../bin") >"bin/$id.build.log" 2>&1 || { echo "setup: build of $id failed"; cat "bin/$id.build.log"; rc=1; }
+    (cd harness && "cmd/$id/build.sh" "$PWD/../bin" "$PWD/../bin/$id") >"bin/$id.build.log" 2>&1 || { echo "setup: build of $id failed"; cat "bin/$id.build.log"; rc=1; }
   else
     (cd harness && go build -tags verif -o "../bin/$id" "./cmd/$id") >"bin/$id.build.log" 2>&1 || { echo "setup: build of $id failed"; cat "bin/$id.build.log"; rc=1; }
   fi
